@@ -425,6 +425,18 @@ def run_curvsym(spec, res):
                 C + np.einsum('abcd...->bacd...', C), z4, 1e-12, scale=sc)
     check_close(res, 'Weyl(E/B) antisym 2nd pair', tags,
                 C + np.einsum('abcd...->abdc...', C), z4, 1e-12, scale=sc)
+    rel2 = harness.make_rel(fd, inp, clear_cache_every_nbr_calc=10**9,
+                            memory_threshold_inGB=1e9)
+    with common.Quiet():
+        rel2['st_Riemann_down4']
+        C2 = np.array(rel2['st_Weyl_down4'])      # Riemann construction
+    sc2 = np.abs(C2).max()
+    check_close(res, 'Weyl(Riemann) C_ijk0 = -C_ij0k', tags, C2[1:, 1:, 1:, 0],
+                -C2[1:, 1:, 0, 1:], 1e-12, scale=sc2)
+    check_close(res, 'Weyl(Riemann) C_i0j0 = -C_i00j = C_0i0j', tags, C2[1:, 0, 1:, 0],
+                -C2[1:, 0, 0, 1:], 1e-12, scale=sc2)
+    check_close(res, 'Weyl(Riemann) C_i0jk = -C_0ijk', tags, C2[1:, 0, 1:, 1:],
+                -C2[0, 1:, 1:, 1:], 1e-12, scale=sc2)
     check_close(res, 'tr E = 0', tags, np.einsum('ij...,ij...->...', gu, E),
                 np.zeros(E.shape[2:]), 1e-12,
                 scale=float(np.abs(ex['s_Ricci_down3']).max()
